@@ -605,9 +605,9 @@ func (t *WType) cue(ind string) string {
 	case "any":
 		return "_"
 	case "array":
-		return "[..." + t.Elem.cue(ind) + "]"
+		return "[..." + cueParen(t.Elem.cue(ind)) + "]"
 	case "map":
-		return "{\n" + ind + "\t[string]: " + t.Elem.cue(ind+"\t") + "\n" + ind + "}"
+		return "{\n" + ind + "\t[string]: " + cueParen(t.Elem.cue(ind+"\t")) + "\n" + ind + "}"
 	case "struct":
 		var b strings.Builder
 		b.WriteString("{\n")
@@ -621,26 +621,24 @@ func (t *WType) cue(ind string) string {
 					b.WriteString(ind + "\t// " + l + "\n")
 				}
 			}
-			b.WriteString(ind + "\t" + cueLabel(f.Name) + opt + ": " + f.T.cue(ind+"\t") + "\n")
+			b.WriteString(ind + "\t" + cueLabel(f.Name) + opt + ": " + f.T.cueTop(ind+"\t") + "\n")
 		}
 		b.WriteString(ind + "}")
 		return b.String()
 	case "ref":
 		return "#" + t.Ref
 	case "enum":
+		if _, isStr := t.Enum[0].(string); !isStr {
+			// numeric enums need a field attribute (see cueAttr); nested ones degrade to int64
+			if ind != "\x00top" {
+				return "int64"
+			}
+		}
 		var parts []string
 		for _, e := range t.Enum {
 			parts = append(parts, cueLit(e))
 		}
-		out := strings.Join(parts, " | ")
-		if _, isStr := t.Enum[0].(string); !isStr {
-			var names []string
-			for i := range t.Enum {
-				names = append(names, fmt.Sprintf("member%d", i))
-			}
-			out += fmt.Sprintf(" @cog(kind=\"enum\",memberNames=\"%s\")", strings.Join(names, "|"))
-		}
-		return out
+		return strings.Join(parts, " | ")
 	case "const":
 		return cueLit(t.Const)
 	case "union":
@@ -659,6 +657,29 @@ func (t *WType) cue(ind string) string {
 	return "_"
 }
 
+// cueParen parenthesises an expression only when it has an operator at top
+// level (cog's CUE front end is sensitive to superfluous parentheses).
+func cueParen(e string) string {
+	if strings.Contains(e, " | ") || strings.Contains(e, " & ") {
+		return "(" + e + ")"
+	}
+	return e
+}
+
+// cueTop renders a type at field or definition level, where attributes are allowed.
+func (t *WType) cueTop(ind string) string {
+	if t.K == "enum" {
+		if _, isStr := t.Enum[0].(string); !isStr {
+			var names []string
+			for i := range t.Enum {
+				names = append(names, fmt.Sprintf("member%d", i))
+			}
+			return t.cue("\x00top") + fmt.Sprintf(" @cog(kind=\"enum\",memberNames=\"%s\")", strings.Join(names, "|"))
+		}
+	}
+	return t.cue(ind)
+}
+
 // RenderCUE renders the package as a CUE file of definitions. Only a subset of
 // the model is expressible; the rest degrades to `_`.
 func (p *WPackage) RenderCUE(pkgName string) string {
@@ -670,7 +691,7 @@ func (p *WPackage) RenderCUE(pkgName string) string {
 				b.WriteString("// " + l + "\n")
 			}
 		}
-		b.WriteString("#" + o.Name + ": " + o.T.cue("") + "\n\n")
+		b.WriteString("#" + o.Name + ": " + o.T.cueTop("") + "\n\n")
 	}
 	return b.String()
 }
